@@ -1,11 +1,13 @@
 package main
 
 import (
+	"encoding/json"
 	"fmt"
 	"os"
 	"path/filepath"
 	"regexp"
 	"sort"
+	"strconv"
 	"strings"
 	"sync"
 	"sync/atomic"
@@ -190,6 +192,19 @@ func renderProbe(e *expr.Expression, desc string) *Probe {
 		Impl: map[string]string{"R": out[0], "RP": out[1]}}
 }
 
+func specProbe(name string, args ...string) *Probe {
+	return &Probe{Op: "spec", Req: "spec\t" + name + "\t" + strings.Join(args, "\t"), Impl: map[string]string{"OK": "1"}}
+}
+
+// splitPP splits the PP field "ok:<hex sql>|<params>".
+func splitPP(f string) (string, string) {
+	f = strings.TrimPrefix(f, "ok:")
+	if i := strings.Index(f, "|"); i >= 0 {
+		return f[:i], f[i+1:]
+	}
+	return f, ""
+}
+
 func lexProbe(c *Case) *Probe {
 	o := impl.RunLexObs(c.S, fnv(c.S)^uint64(c.Idx))
 	if strings.HasSuffix(o.Stream, ";err") {
@@ -211,6 +226,50 @@ func probesOf(c *Case) []*Probe {
 		q.Req = "ping"
 		q.Op = "noop"
 		return []*Probe{q}
+	case "sem":
+		// C03: the inline SQL against the meaning tree the oracle built (c.Want)
+		q := qProbe(c.S, c.DF)
+		ps := []*Probe{q}
+		if strings.HasPrefix(q.Impl["PG"], "ok:") {
+			ps = append(ps, specProbe("c03", c.Want, q.Impl["PG"][3:]))
+		}
+		return ps
+	case "conf":
+		// C02: confinement and provenance of both SQL forms, judged on the implementation's tree and texts
+		q := qProbe(c.S, c.DF)
+		ps := []*Probe{q}
+		if strings.HasPrefix(q.Impl["P"], "ok:") {
+			tree := q.Impl["P"][3:]
+			if strings.HasPrefix(q.Impl["PG"], "ok:") {
+				ps = append(ps, specProbe("c02", tree, q.Impl["PG"][3:], "0", "0"))
+			}
+			if strings.HasPrefix(q.Impl["PP"], "ok:") {
+				sql, params := splitPP(q.Impl["PP"])
+				n := 0
+				if params != "" {
+					n = strings.Count(params, ",") + 1
+				}
+				ps = append(ps, specProbe("c02", tree, sql, "1", strconv.Itoa(n)))
+			}
+		}
+		return ps
+	case "par":
+		// C04: parameterized against inline
+		q := qProbe(c.S, c.DF)
+		ps := []*Probe{q}
+		if strings.HasPrefix(q.Impl["PG"], "ok:") && strings.HasPrefix(q.Impl["PP"], "ok:") {
+			sql, params := splitPP(q.Impl["PP"])
+			ps = append(ps, specProbe("c04", q.Impl["P"][3:], q.Impl["PG"][3:], sql, params))
+		}
+		return ps
+	case "quoted":
+		// C08: a quoted value; PostgreSQL's reading of the inline SQL is asked from the model of its scanner
+		q := qProbe(c.S, c.DF)
+		ps := []*Probe{q}
+		if strings.HasPrefix(q.Impl["PG"], "ok:") {
+			ps = append(ps, specProbe("sqlcanon", q.Impl["PG"][3:]))
+		}
+		return ps
 	case "qwf":
 		// the implementation's tree is judged by the model's independent shape check (C10)
 		q := qProbe(c.S, c.DF)
@@ -294,6 +353,9 @@ func (e *engine) runBatch(id int, mp *modelproc.Proc, batch []Case) {
 				}
 			}
 			for _, name := range fieldNames[p.Op] {
+				if p.Op == "spec" {
+					continue // judged by the property's Spec function
+				}
 				if e.prop.Fields[name] && !fieldAgrees(name, p) {
 					fails = append(fails, Failure{Case: *c, Class: "disagree", Clause: fmt.Sprintf("field %s of probe %d (%s)", name, pi+1, p.Op), Impl: p.Impl, Model: p.Model})
 				}
@@ -341,6 +403,31 @@ func (e *engine) runBatch(id int, mp *modelproc.Proc, batch []Case) {
 	}
 }
 
+// loadCorpus reads corpus/<prop>.jsonl next to known_findings.json: one Case per line.
+func loadCorpus(findingsPath, prop string) []Case {
+	if findingsPath == "" {
+		return nil
+	}
+	b, err := os.ReadFile(filepath.Join(filepath.Dir(findingsPath), "corpus", prop+".jsonl"))
+	if err != nil {
+		return nil
+	}
+	var out []Case
+	for _, line := range strings.Split(string(b), "\n") {
+		if strings.TrimSpace(line) == "" {
+			continue
+		}
+		var c Case
+		if json.Unmarshal([]byte(line), &c) == nil && c.Kind != "" {
+			if c.Gen == "" {
+				c.Gen = "corpus"
+			}
+			out = append(out, c)
+		}
+	}
+	return out
+}
+
 // runCheck is `drive run`.
 func runCheck(cfg RunConfig) int {
 	prop, ok := properties[cfg.Prop]
@@ -386,6 +473,21 @@ func runCheck(cfg RunConfig) int {
 			cases <- batch
 			batch = make([]Case, 0, 256)
 		}
+	}
+	// the regression corpus runs first: witnesses of the listed open findings and minimised past failures
+	for _, k := range loadFindings(cfg.Findings).list {
+		if k.Status == "open" && k.Case != nil {
+			for _, p := range k.Properties {
+				if p == cfg.Prop {
+					c := *k.Case
+					c.Gen = "corpus:" + k.ID
+					emit(c)
+				}
+			}
+		}
+	}
+	for _, c := range loadCorpus(cfg.Findings, cfg.Prop) {
+		emit(c)
 	}
 	prop.Generate(cfg, emit)
 	if len(batch) > 0 {
